@@ -1,6 +1,6 @@
 (* Extract/ExC09.v -- extraction for family c09 *)
 From Coq Require Import Extraction ExtrOcamlBasic ExtrOcamlString.
-From AT Require Import Num Vec Aff Farkas FM Equiv PTree Cells Abs Reduce Paths PolyGen PolyGenProofs.
+From AT Require Import Num Vec Aff Farkas FM Equiv PTree Cells Abs Reduce Paths PolyGen PolyGenProofs PolyGenUpd.
 Extraction Blacklist List String Int.
 Extraction "model_c09.ml"
   qc_of_float qz qfrac qleb qltb qeqb Qcplus Qcmult Qcopp Qcminus Qcdiv
@@ -11,4 +11,5 @@ Extraction "model_c09.ml"
   pieces tree_equiv check_cex out_eqb
   aget aset alen akeys abs_at abs_tree
   binb fullb follow path_preds edge_row in_closedb
-  pgen_new pgen_run dabs f_new f_run preorder edge_rows ginvb.
+  pgen_new pgen_run dabs f_new f_run preorder edge_rows ginvb
+  pgen_run_upd upd_node.
